@@ -244,6 +244,9 @@ func (x *run) do(label string) bool {
 	case "BUDGET":
 		k, _ := strconv.Atoi(f[2])
 		node(1).Store.SetBudget(k)
+	case "PAD":
+		k, _ := strconv.Atoi(f[2])
+		node(1).FSM.Pad = k
 	case "CRASH":
 		x.c.Crash(f[1])
 	case "RESTART":
@@ -299,6 +302,7 @@ var families = map[string]weights{
 	"delay":    {deliver: 12, reply: 8, fail: 2, dup: 3, tick: 8, election: 10, heartbeat: 6, submit: 8, read: 3},
 	"crash":    {deliver: 30, reply: 30, fail: 4, dup: 2, tick: 5, election: 5, heartbeat: 5, submit: 8, read: 2, crash: 3, restart: 5, crashin: 3},
 	"snapshot": {deliver: 35, reply: 35, fail: 4, dup: 2, tick: 4, election: 4, heartbeat: 6, submit: 10, read: 2, snapshot: 5, crash: 2, restart: 4, crashin: 1},
+	"bigsnap":  {deliver: 35, reply: 35, fail: 8, dup: 3, tick: 4, election: 4, heartbeat: 8, submit: 8, read: 1, snapshot: 6, crash: 1, restart: 3},
 	"timed":    {deliver: 30, reply: 40, fail: 6, dup: 2, tick: 6, election: 8, heartbeat: 8, submit: 8, read: 8, crash: 1, restart: 3},
 	"member":   {deliver: 35, reply: 35, fail: 3, dup: 1, tick: 4, election: 4, heartbeat: 6, submit: 6, read: 2, member: 4, crash: 1, restart: 3},
 }
@@ -440,7 +444,7 @@ func main() {
 	traces := flag.Int("traces", 10, "number of traces")
 	steps := flag.Int("steps", 150, "labels per trace")
 	out := flag.String("out", "cosim.trace", "trace file")
-	fam := flag.String("families", "normal,lossy,delay,crash,snapshot,timed", "scenario families")
+	fam := flag.String("families", "normal,lossy,delay,crash,snapshot,timed,bigsnap", "scenario families")
 	replay := flag.String("replay", "", "replay the labels of this trace file instead of generating")
 	one := flag.Int("one", -1, "child mode: generate only trace number N")
 	workers := flag.Int("workers", 8, "parallel child processes")
@@ -502,6 +506,11 @@ func main() {
 		}
 		famHist[family]++
 		ok := true
+		if family == "bigsnap" {
+			for _, id := range x.ids {
+				ok = ok && x.do(fmt.Sprintf("PAD %s %d", id, []int{32756, 32760, 32764, 32768, 32772, 65528, 65536}[r.Intn(7)]))
+			}
+		}
 		// warm-up: let somebody win an election most of the time
 		if r.Intn(4) > 0 {
 			ok = x.do(fmt.Sprintf("TICK %d", x.c.ET)) && x.do("ELECTION "+x.pick(x.ids[:nn])) && x.drain(3)
@@ -816,10 +825,13 @@ func replayFile(path string, w *bufio.Writer, root string) {
 					x = nil
 				}
 			}
-		case "END":
+		case "END", "TAILEND":
 			if x != nil {
+				if f[0] == "TAILEND" {
+					x.tail() // the fault-free period the liveness monitors (C15) look at
+				}
 				x.emit("END")
-					}
+			}
 			x = nil
 		}
 	}
